@@ -72,6 +72,10 @@ type State struct {
 	replayQ  []bool
 	rpos     int
 	onceRan  map[string]bool
+	// poolReuse (zz.PoolReuse): sync.Pool keeps what was Put and Get hands the most recently
+	// returned object out again (what one P does natively); off: Get always calls New
+	poolReuse bool
+	pools    map[string][]Value
 	nondets  []NondetRec
 	obs      []ObsRec
 	steps    int
@@ -136,6 +140,12 @@ func (s *State) clone() *State {
 	n.onceRan = make(map[string]bool, len(s.onceRan))
 	for k, v := range s.onceRan {
 		n.onceRan[k] = v
+	}
+	if s.pools != nil {
+		n.pools = make(map[string][]Value, len(s.pools))
+		for k, v := range s.pools {
+			n.pools[k] = append([]Value(nil), v...)
+		}
 	}
 	n.initDone = make(map[string]bool, len(s.initDone))
 	for k, v := range s.initDone {
